@@ -142,3 +142,24 @@ Definition S_link_load_files : Prop := forall le st f text g sel rest orest fuel
   /\ load_ra_files le text obits (enc_stream le cs p g sel rest) fuel (N.of_nat x) = Some l
   /\ (s_bits st = nlen (graph_bits le cs recs) ->
       props_length text = Some (last (enc_offs le cs p g sel) 0)).
+
+(** ** The recompression pipeline at file level (C20 o C12 o C04): a graph stored under
+    configuration A — known to the tool only through A's properties text — is loaded,
+    recompressed in parallel under ANY configuration B (endianness, codes, window, cut
+    sequence, per-chunk selections, completion order), B's properties are written, and a
+    second reader that sees only B's text and the new stream obtains the same graph. *)
+Definition S_link_recompress_files : Prop :=
+  forall leA stA fA textA selA leB stB fB textB cuts sels arrival g restA restB,
+  to_props leA stA fA = Some textA -> stats_for g stA ->
+  to_props leB stB fB = Some textB -> stats_for g stB ->
+  Forall inc g -> valid_sel (params_of_flags fA) [] g selA = true ->
+  legal_cuts cuts (nlen g) = true ->
+  valid_sels (params_of_flags fB) (segments cuts g) sels = true ->
+  Permutation arrival (seq 0 (length cuts - 1)) ->
+  exists g' bs lens,
+    load_seq leA textA
+      (graph_bits leA (fl_codes fA) (encode_graph (params_of_flags fA) 0 g selA) ++ restA)
+      = Some (g', restA)
+    /\ par_comp leB (fl_codes fB) (params_of_flags fB) cuts g' sels arrival
+       = SpliceOk bs lens (nsum (map nlen g)) (nlen g)
+    /\ load_seq leB textB (bs ++ restB) = Some (g, restB).
